@@ -218,7 +218,21 @@ class _Inliner:
         is_gen = any(isinstance(n, (ast.Yield, ast.YieldFrom)) for s in h.body for n in ast.walk(s))
         if is_gen != (mode == "yieldfrom"):
             return None
-        inst = self._instantiate(h, call, recv, is_static, fn_locals)
+        # `a, b = self._helper()` where the helper ends in `return a, b`: the helper's locals may keep the names of the
+        # targets they are returned into, provided the caller does not use those names before this statement
+        keep = set()
+        if mode == "assign":
+            tnames = [t.id for t in (target.elts if isinstance(target, ast.Tuple) else [target]) if isinstance(t, ast.Name)]
+            fn_ = getattr(self, "cur_fn", None)
+            if fn_ is not None and tnames:
+                params_ = {a.arg for a in fn_.args.posonlyargs + fn_.args.args + fn_.args.kwonlyargs}
+                line_ = getattr(stmt, "lineno", 0)
+                for t_ in tnames:
+                    earlier = any(isinstance(n, ast.Name) and n.id == t_ and getattr(n, "lineno", 0) < line_ for n in ast.walk(fn_))
+                    in_args = any(isinstance(n, ast.Name) and n.id == t_ for n in ast.walk(call))
+                    if t_ not in params_ and not earlier and not in_args:
+                        keep.add(t_)
+        inst = self._instantiate(h, call, recv, is_static, fn_locals, keep=frozenset(keep))
         if inst is None:
             return None
         pre, body = inst
@@ -236,6 +250,13 @@ class _Inliner:
             new = _tail(body, k)
             if new is None:
                 return None
+            # drop identity assignments produced by returning locals into targets of the same names
+            def _ident(s_):
+                if not (isinstance(s_, ast.Assign) and len(s_.targets) == 1):
+                    return False
+                a_, b_ = s_.targets[0], s_.value
+                return ast.dump(a_).replace("Store()", "Load()") == ast.dump(b_)
+            new = [s_ for s_ in new if not _ident(s_)]
         out = pre + new
         for s in out:
             for n in ast.walk(s):
